@@ -235,6 +235,8 @@ pub struct Dec<'a> {
     pub takes: Vec<Take>,
     /// largest claimed element count of a sequence/map whose elements are zero-width
     pub max_zero_width_claim: u128,
+    /// sum of the claimed element counts of all zero-width sequences/maps met
+    pub total_zero_width_claim: u128,
     /// largest claimed length (of anything)
     pub max_claim: u128,
     /// the element budget: abort with Other when more than this many elements would be materialised
@@ -251,6 +253,7 @@ impl<'a> Dec<'a> {
             pos: 0,
             takes: vec![],
             max_zero_width_claim: 0,
+            total_zero_width_claim: 0,
             max_claim: 0,
             elem_budget: 1 << 16,
             budget_exceeded: false,
@@ -394,6 +397,7 @@ impl<'a> Dec<'a> {
                 self.max_claim = self.max_claim.max(n);
                 if e.min_width() == 0 {
                     self.max_zero_width_claim = self.max_zero_width_claim.max(n);
+                    self.total_zero_width_claim = self.total_zero_width_claim.saturating_add(n);
                     if n > self.zero_width_limit {
                         self.budget_exceeded = true;
                         return Err(ErrKind::Other);
@@ -413,6 +417,7 @@ impl<'a> Dec<'a> {
                 self.max_claim = self.max_claim.max(n);
                 if k.min_width() + v.min_width() == 0 {
                     self.max_zero_width_claim = self.max_zero_width_claim.max(n);
+                    self.total_zero_width_claim = self.total_zero_width_claim.saturating_add(n);
                     if n > self.zero_width_limit {
                         self.budget_exceeded = true;
                         return Err(ErrKind::Other);
@@ -455,6 +460,7 @@ pub struct DecOut {
     pub result: Result<(Val, usize), ErrKind>,
     pub takes: Vec<Take>,
     pub max_zero_width_claim: u128,
+    pub total_zero_width_claim: u128,
     pub max_claim: u128,
     pub budget_exceeded: bool,
 }
@@ -466,6 +472,7 @@ pub fn spec_decode(s: &Shape, input: &[u8]) -> DecOut {
         result: r.map(|v| (v, d.pos)),
         takes: d.takes,
         max_zero_width_claim: d.max_zero_width_claim,
+        total_zero_width_claim: d.total_zero_width_claim,
         max_claim: d.max_claim,
         budget_exceeded: d.budget_exceeded,
     }
